@@ -11,6 +11,7 @@ import KinModel.Lemmas.C09LegacyLiteral
 import KinModel.Lemmas.C09Server
 import KinModel.Lemmas.C09Facts
 import KinModel.Lemmas.C09Refine
+import KinModel.Lemmas.C09RefineAbs
 import KinModel.Lemmas.C09LegacyRefine
 import KinModel.Lemmas.C09LegacyOrder
 import KinModel.Lemmas.C09Gorilla
@@ -251,6 +252,21 @@ theorem legacy_order_independent_partial (d : Doc) (ks : List Key) (hp : ks.Perm
   refine ⟨hroot, ?_⟩
   unfold legacyFindOrd legacyMatchOf
   rw [hroot]
+
+/-- … at full strength for the router after the repair proposed for F-C09-7 (construction refuses two keys on one node):
+    its answers do not depend on the order in which the keys are met -/
+theorem legacy_order_independent_after_repair (d : Doc) (ks : List Key) (hp : ks.Perm (docKeys d)) (r : Req) :
+    legacyFindOrdStrict d ks r = legacyFindOrdStrict d (docKeys d) r := by
+  unfold legacyFindOrdStrict
+  cases hb : legacyBuildOKStrict d with
+  | false => rfl
+  | true =>
+    simp only [Bool.not_true, Bool.false_eq_true, if_false]
+    have hnc : keyCollision (docKeys d) = false := by
+      unfold legacyBuildOKStrict at hb
+      simp only [Bool.and_eq_true, Bool.not_eq_true'] at hb
+      exact hb.2
+    exact (legacy_order_independent_partial d ks hp hnc r).2
 
 /-- no_match_is_error (legacy): no matching server, or no trie match and no path key spelled by the remaining path,
     yields path-not-found; and the router never answers with the nil-dereference outcome -/
@@ -695,6 +711,82 @@ theorem gorilla_refines_spec_sound (e : Bool) (d : Doc) (hd : PlainDoc d)
         · exact hcf _ _ (hd.2 pd hpd).1 hg
       rw [hps, e3, hupd]
 
+/-- route_sound against the spec, absolute servers included: on documents whose servers are plain relative paths or
+    `scheme://host[:port][/base]` without variables (`AbsDoc`), for a request that names a port only where the matched kind of
+    server does (`PortOK`: mux ignores the request's port when the host template has none), a returned route is a candidate of
+    the spec — same template, binding and `Route.Server` — that declares the method -/
+theorem gorilla_refines_spec_sound_abs (e : Bool) (d : Doc) (hd : AbsDoc d) (req : Req) (hport : PortOK d req)
+    (t m : Str) (ps : List (Str × Str)) (sv : SrvRef) (h : gorillaFind d req = .route t m ps sv) :
+    m = req.method ∧ ∃ c ∈ specCands e d req, c.template = t ∧ c.server = sv ∧ c.declares = true ∧
+      ps = mapSetAll (mapSetAll [] c.params) [] := by
+  unfold gorillaFind at h
+  split at h
+  · simp at h
+  · rename_i rs hrs
+    obtain ⟨pre, r, post, b, e0, _, hm, ht, hmeth, hdecl, hsv, hps⟩ := gFirst_route h
+    have hr : r ∈ rs := by rw [e0]; simp
+    obtain ⟨pd, hpd, g, hg, hmk⟩ := ((routes_effective hrs).1 r).1 hr
+    obtain ⟨e1, e2, e3, _, _⟩ := mkRoute_some hmk
+    obtain ⟨hc, hupd⟩ := cand_of_match_abs e d hd req hport pd hpd g hg b (gRouteMatch_reproduces hmk hm)
+    refine ⟨hmeth, _, List.mem_flatMap.2 ⟨pd, hpd, hc⟩, by rw [← e1, ht], by rw [← e3]; exact hsv, ?_, ?_⟩
+    · simp only [List.contains_iff_mem, decide_eq_true_eq]
+      rw [← e2]; exact hdecl
+    · rw [hps, e3, hupd]
+
+/-- no_match_is_error against the spec, absolute servers included (request well formed, port only where the server names one) -/
+theorem gorilla_refines_spec_not_found_abs (e : Bool) (d : Doc) (hd : AbsDoc d) (rs : List GRoute) (hrs : gorillaRoutes d = some rs)
+    (req : Req) (hwf : ReqWF req) (hport : PortOK d req) :
+    gorillaFind d req = .notFound ↔ specCands e d req = [] := by
+  rw [gorilla_not_found_iff d req rs hrs]
+  obtain ⟨heff, hbuilt⟩ := routes_effective hrs
+  constructor
+  · intro hall
+    apply List.eq_nil_iff_forall_not_mem.2
+    intro c hc
+    simp only [specCands, List.mem_flatMap] at hc
+    obtain ⟨pd, hpd, hcp⟩ := hc
+    obtain ⟨_, _, g, hg, _, hmatch⟩ := match_of_cand_abs e d hd req hwf pd hpd c hcp
+    obtain ⟨r, hmk⟩ := hbuilt pd hpd g hg
+    exact hmatch r hmk (hall r ((heff r).2 ⟨pd, hpd, g, hg, hmk⟩))
+  · intro hnil r hr
+    cases hm : gRouteMatch r req with
+    | none => rfl
+    | some b =>
+      exfalso
+      obtain ⟨pd, hpd, g, hg, hmk⟩ := (heff r).1 hr
+      have hc := (cand_of_match_abs e d hd req hport pd hpd g hg b (gRouteMatch_reproduces hmk hm)).1
+      have : (⟨pd.template, b, pd.methods.contains req.method, g.ref⟩ : Cand) ∈ specCands e d req :=
+        List.mem_flatMap.2 ⟨pd, hpd, hc⟩
+      rw [hnil] at this
+      simp at this
+
+/- Full statement (false for the code, finding #40): some candidate declares the method → routed.
+   What holds (absolute servers included): … when every candidate of the spec declares the method. -/
+theorem gorilla_refines_spec_complete_abs_partial (e : Bool) (d : Doc) (hd : AbsDoc d) (rs : List GRoute)
+    (hrs : gorillaRoutes d = some rs) (req : Req) (hwf : ReqWF req) (hport : PortOK d req)
+    (hex : specCands e d req ≠ []) (hall : ∀ c ∈ specCands e d req, c.declares = true) :
+    ∃ t ps sv, gorillaFind d req = .route t req.method ps sv := by
+  unfold gorillaFind
+  rw [hrs]
+  obtain ⟨heff, hbuilt⟩ := routes_effective hrs
+  apply gFirst_complete
+  · obtain ⟨c, hc⟩ := List.exists_mem_of_ne_nil _ hex
+    simp only [specCands, List.mem_flatMap] at hc
+    obtain ⟨pd, hpd, hcp⟩ := hc
+    obtain ⟨_, _, g, hg, _, hmatch⟩ := match_of_cand_abs e d hd req hwf pd hpd c hcp
+    obtain ⟨r, hmk⟩ := hbuilt pd hpd g hg
+    exact ⟨r, (heff r).2 ⟨pd, hpd, g, hg, hmk⟩, hmatch r hmk⟩
+  · intro r hr hm
+    cases hmm : gRouteMatch r req with
+    | none => exact absurd hmm hm
+    | some b =>
+      obtain ⟨pd, hpd, g, hg, hmk⟩ := (heff r).1 hr
+      have hc := (cand_of_match_abs e d hd req hport pd hpd g hg b (gRouteMatch_reproduces hmk hmm)).1
+      have hdecl := hall _ (List.mem_flatMap.2 ⟨pd, hpd, hc⟩)
+      simp only [List.contains_iff_mem, decide_eq_true_eq] at hdecl
+      rw [(mkRoute_some hmk).2.1]
+      exact hdecl
+
 /-- no_match_is_error against the spec: the router answers path-not-found exactly when the spec has no candidate -/
 theorem gorilla_refines_spec_not_found (e : Bool) (d : Doc) (hd : PlainDoc d)
     (rs : List GRoute) (hrs : gorillaRoutes d = some rs) (req : Req) :
@@ -878,6 +970,73 @@ theorem legacy_refines_spec_sound_partial (e : Bool) (d : Doc) (hs : d.servers =
     · simp only [List.contains_iff_mem, decide_eq_true_eq]
       rw [← hmm]; exact hpm
 
+/- Full statement (false for the code, findings #14 and F-C09-5): a route returned by the legacy router is a candidate of
+   the spec, found under the server the route names.
+   What holds: … on documents whose document-level servers are plain relative paths (any number, different base paths; no
+   path-item level servers, which this router does not read: F-C09-9), for server-style requests (F-C09-5), when every
+   bound value is non-empty and neither the remaining path nor the returned template ends in '/'. -/
+theorem legacy_refines_spec_sound_servers_partial (e : Bool) (d : Doc) (hrel : ∀ s ∈ d.servers, PlainRel s)
+    (hps : ∀ p ∈ d.paths, p.servers = []) (ks : List Key) (hks : ∀ k ∈ ks, k ∈ docKeys d) (r : Req) (habs : r.abs = false)
+    (t m : Str) (ps : List (Str × Str)) (sv : SrvRef) (h : legacyFindOrd d ks r = .route t m ps sv)
+    (hmeth : '/' ∉ m ∧ '{' ∉ m ∧ ' ' ∉ m ∧ ' ' ∉ r.method)
+    (ht : t.head? = some '/') (htl : t.getLast? ≠ some '/')
+    (hne : ∀ si sp rem k vals, legacyServer d r = some (si, sp, rem) → legacyMatchOf ks r.method rem = some (k, vals) →
+      rem.getLast? ≠ some '/' ∧ (∀ v ∈ vals, v ≠ []) ∧ NoWildcard k.toks) :
+    m = r.method ∧ ∃ c ∈ specCands e d r, c.template = t ∧ c.server = sv ∧ c.declares = true := by
+  have hbuild : legacyBuildOK d = true := by
+    unfold legacyFindOrd at h
+    cases hb : legacyBuildOK d with
+    | true => rfl
+    | false => simp [hb] at h
+  obtain ⟨si, sp, rem, k, vals, hsrv, hmatch, hkt, hkm, hsv, ⟨pd, hpd, hpt, hpm⟩, _⟩ :=
+    legacy_route_sound_partial d ks hks r t m ps sv h
+  obtain ⟨hrl, hvne, hnw⟩ := hne si sp rem k vals hsrv hmatch
+  have hk : k ∈ docKeys d := hks k (legacy_match_declared ks _ _ _ _ hmatch)
+  have htok : (tokenize k.str).isSome = true := by
+    unfold legacyBuildOK at hbuild
+    exact List.all_eq_true.1 hbuild k hk
+  obtain ⟨hmm, hfill⟩ := legacy_match_fill ks r.method rem k vals hmatch htok
+    (by rw [hkm]; exact hmeth) (by rw [hkt]; exact ht) (by rw [hkt]; exact htl) hrl hvne hnw
+  rw [hkm] at hmm
+  rw [hkt] at hfill
+  have hdecl : pd.methods.contains r.method = true := by
+    simp only [List.contains_iff_mem, decide_eq_true_eq]
+    rw [← hmm]; exact hpm
+  have hcand : ∀ ref, (⟨t, (svarNames (sparseS t)).zip vals, pd.methods.contains r.method, ref⟩ : Cand) ∈ candsFor r.method rem ref pd := by
+    intro ref
+    simp only [candsFor, List.mem_filterMap]
+    refine ⟨(vals, []), ?_, by simp [hpt]⟩
+    rw [hpt]
+    exact (smatchP_iff _ _ _ _).2 hfill
+  refine ⟨hmm, ⟨t, (svarNames (sparseS t)).zip vals, pd.methods.contains r.method, sv⟩, ?_, rfl, rfl, hdecl⟩
+  simp only [specCands, List.mem_flatMap]
+  refine ⟨pd, hpd, ?_⟩
+  cases si with
+  | none =>
+    obtain ⟨hs0, _, hrem⟩ := (legacy_server_none d r sp rem).1 hsrv
+    subst hrem
+    simp only at hsv
+    subst hsv
+    have heff : effServers d pd = [] := by simp [effServers, hps pd hpd, hs0, tagFrom]
+    unfold specCandsPath
+    rw [heff]
+    exact hcand SrvRef.none
+  | some i =>
+    simp only at hsv
+    subst hsv
+    obtain ⟨s, hi, _, vals', p, rem', hpat, _, hraw, hrem, _⟩ := legacy_server_sound d r i sp rem hsrv
+    have hs : PlainRel s := hrel s (getElem?_mem' hi)
+    obtain ⟨_, rfl⟩ := patSpell_plain hpat hs.2.1
+    have hraw' : r.path = dropOneSlash s.url ++ rem' := by
+      simpa [rawURL, habs] using hraw
+    rcases hrem with ⟨_, h2⟩ | ⟨h1, h2⟩
+    · rw [h2] at hrl; simp at hrl
+    · subst h1
+      have hx : (SrvRef.doc i, s) ∈ effServers d pd := by
+        have := tagFrom_get (mk := SrvRef.doc) (j := 0) hi
+        simpa [effServers, hps pd hpd] using this
+      exact mem_effServers_ne hx e r _ rem' (specServerRems_plainRel e s hs r rem' hraw' (Or.inr h2)) (hcand (SrvRef.doc i))
+
 /- Full statement (false for the code: documented limitation "variable followed by text in the same segment", F-C09-4):
      a candidate of the spec that declares the method → the legacy router returns a route.
    What holds: … when no variable of the candidate's template is followed by more text in its segment (document without
@@ -939,6 +1098,39 @@ theorem legacy_refines_spec_complete_partial (e : Bool) (d : Doc) (hs : d.server
       simpa using this
     have hsrv : legacyServer d r = some (none, [], r.path) := (legacy_server_none d r [] r.path).2 ⟨hs, rfl, rfl⟩
     exact legacy_route_complete_partial d ks r none [] r.path k vs hb hsrv (hks k hk) hr
+
+/-- no_match_is_error against the spec (legacy, partial as `legacy_refines_spec_sound_servers_partial`): when the spec has no
+    candidate the router does not return a route (with non-empty bindings and no trailing slashes) -/
+theorem legacy_refines_spec_not_found_partial (e : Bool) (d : Doc) (hrel : ∀ s ∈ d.servers, PlainRel s)
+    (hps : ∀ p ∈ d.paths, p.servers = []) (ks : List Key) (hks : ∀ k ∈ ks, k ∈ docKeys d) (r : Req) (habs : r.abs = false)
+    (hnil : specCands e d r = [])
+    (t m : Str) (ps : List (Str × Str)) (sv : SrvRef)
+    (hmeth : '/' ∉ m ∧ '{' ∉ m ∧ ' ' ∉ m ∧ ' ' ∉ r.method)
+    (ht : t.head? = some '/') (htl : t.getLast? ≠ some '/')
+    (hne : ∀ si sp rem k vals, legacyServer d r = some (si, sp, rem) → legacyMatchOf ks r.method rem = some (k, vals) →
+      rem.getLast? ≠ some '/' ∧ (∀ v ∈ vals, v ≠ []) ∧ NoWildcard k.toks) :
+    legacyFindOrd d ks r ≠ .route t m ps sv := by
+  intro h
+  obtain ⟨_, c, hc, _⟩ := legacy_refines_spec_sound_servers_partial e d hrel hps ks hks r habs t m ps sv h hmeth ht htl hne
+  rw [hnil] at hc
+  simp at hc
+
+/-- … and, the other way round (server-less documents): when the router answers with an error, no candidate whose variables end
+    their segments declares the method (contrapositive of `legacy_refines_spec_complete_partial`) -/
+theorem legacy_error_no_declared_candidate_partial (e : Bool) (d : Doc) (hs : d.servers = []) (hps : ∀ p ∈ d.paths, p.servers = [])
+    (hb : legacyBuildOK d = true) (ks : List Key) (hks : ∀ k ∈ docKeys d, k ∈ ks) (r : Req)
+    (herr : legacyFindOrd d ks r = .notFound ∨ legacyFindOrd d ks r = .methodNotAllowed)
+    (hmeth : '/' ∉ r.method ∧ '{' ∉ r.method) (hrl : r.path.getLast? ≠ some '/')
+    (c : Cand) (hc : c ∈ specCands e d r)
+    (ht : c.template.head? = some '/') (htl : c.template.getLast? ≠ some '/')
+    (hnw : NoWildcard (⟨r.method, c.template⟩ : Key).toks) (hvt : varThenLiteral (sparseS c.template) = false) :
+    c.declares = false := by
+  cases hd : c.declares with
+  | false => rfl
+  | true =>
+    exfalso
+    obtain ⟨t, m, ps, sv, hroute⟩ := legacy_refines_spec_complete_partial e d hs hps hb ks hks r c hc hd hmeth hrl ht htl hnw hvt
+    rcases herr with h | h <;> (rw [hroute] at h; simp at h)
 
 /-! ## witnesses: inside each exclusion class the modelled code really differs from the spec -/
 
@@ -1060,6 +1252,17 @@ theorem witness_legacy_path_servers :
     exclLegacyPathServers .legacy dPathSrv (reqRel "GET" "/v1/a") = true ∧
     exclLegacyPathServers .legacy dPathSrv (reqRel "GET" "/p/a") = true := by decide +kernel
 
+open W in
+/-- F-C09-11: `https://a.b.api.test/a` is under the declared server `https://{tenant}.api.test` (tenant = "a.b", no enum), the
+    property requires the route; both routers answer path-not-found (a host variable never takes a dotted value) -/
+theorem witness_srv_var_dot :
+    gorillaFind dDot rDot = .notFound ∧ legacyFind dDot rDot = .notFound ∧
+    specOutcome true dDot rDot = (.route, [⟨s "/a", [], true, .doc 0⟩]) ∧
+    exclSrvVarDot dDot rDot = true ∧
+    exclSrvVarDot dDot rDotOK = false ∧
+    gorillaFind dDot rDotOK = .route (s "/a") get [(s "tenant", s "acme")] (.doc 0) ∧
+    legacyFind dDot rDotOK = .route (s "/a") get [(s "tenant", s "acme")] (.doc 0) := by decide +kernel
+
 /-! ## non-vacuity: the hypotheses of the theorems are satisfiable on a non-trivial document -/
 
 open W in
@@ -1157,5 +1360,32 @@ open W in
 example : legacyBuildOK d40 = true ∧
     (⟨s "/a/{x}", [(s "x", s "zz")], true, .none⟩ : Cand) ∈ specCands true d40 (req "GET" "/a/zz") ∧
     varThenLiteral (sparseS (s "/a/{x}")) = false ∧ varThenLiteral (sparseS (s "/books/{id}.json")) = true := by decide +kernel
+
+open W in
+/-- the hypotheses of `legacy_refines_spec_sound_servers_partial` hold for a request through the second of two plain relative
+    servers: server-style request, remaining path /b/7 without trailing slash, one non-empty binding, no wildcard token -/
+example : (∀ sv ∈ dTwo.servers, PlainRel sv) ∧ (reqRel "GET" "/v2/x/b/7").abs = false ∧
+    legacyServer dTwo (reqRel "GET" "/v2/x/b/7") = some (some 1, [], s "/b/7") ∧
+    legacyMatchOf (docKeys dTwo) get (s "/b/7") = some (⟨get, s "/b/{x}"⟩, [s "7"]) ∧
+    legacyFind dTwo (reqRel "GET" "/v2/x/b/7") = .route (s "/b/{x}") get [(s "x", s "7")] (.doc 1) ∧
+    specCands true dTwo (reqRel "GET" "/v2/x/b/7") = [⟨s "/b/{x}", [(s "x", s "7")], true, .doc 1⟩] := by
+  refine ⟨?_, by decide +kernel, by decide +kernel, by decide +kernel, by decide +kernel, by decide +kernel⟩
+  unfold PlainRel; decide +kernel
+
+open W in
+/-- the hypotheses of `gorilla_refines_spec_sound_abs` hold: a document with an absolute server (trailing slash on its base path)
+    next to a relative one, a request without port; the route names the absolute server -/
+example : AbsPlain ⟨s "https://example.com/api/v2/", []⟩ (s "https") (s "example.com") (s "/api/v2/") ∧
+    gorillaFind ⟨[⟨s "/a", [get], []⟩], [⟨s "/alt", []⟩, ⟨s "https://example.com/api/v2/", []⟩]⟩
+      ⟨get, true, s "https", s "example.com", s "/api/v2/a"⟩ = .route (s "/a") get [] (.doc 1) ∧
+    specCands true ⟨[⟨s "/a", [get], []⟩], [⟨s "/alt", []⟩, ⟨s "https://example.com/api/v2/", []⟩]⟩
+      ⟨get, true, s "https", s "example.com", s "/api/v2/a"⟩ = [⟨s "/a", [], true, .doc 1⟩] := by
+  refine ⟨?_, by decide +kernel, by decide +kernel⟩
+  unfold AbsPlain; decide +kernel
+
+open W in
+/-- the request side of the `*_abs` theorems: well separated scheme / host / path, no port -/
+example : ReqWF ⟨get, true, s "https", s "example.com", s "/api/v2/a"⟩ ∧ ':' ∉ s "example.com" := by
+  unfold ReqWF; decide +kernel
 
 end KinModel.Props.C09
